@@ -197,4 +197,41 @@ theorem mergeOpsets_lookup_main (main lo : List (String × Nat)) (d : String) (v
         exact ih h
   rw [this]; rfl
 
+theorem lookup_none_any (l : List (String × Nat)) (d : String) (h : l.lookup d = none) :
+    l.any (fun mv => mv.1 == d) = false := by
+  induction l with
+  | nil => rfl
+  | cons a r ih =>
+    obtain ⟨k, w⟩ := a
+    by_cases hk : d == k
+    · simp [List.lookup, hk] at h
+    · simp only [List.lookup, hk] at h
+      have hk' : (k == d) = false := by
+        have : ¬ d = k := by simpa using hk
+        simpa using fun e => this e.symm
+      simp [List.any_cons, hk', ih h]
+
+theorem mergeOpsets_lookup_over (base over : List (String × Nat)) (d : String) (v : Nat)
+    (h : over.lookup d = some v) : (mergeOpsets base over).lookup d = some v := by
+  cases hb : base.lookup d with
+  | some w => rw [mergeOpsets_lookup_main base over d w hb, h]; rfl
+  | none =>
+    unfold mergeOpsets
+    rw [List.lookup_append]
+    have h1 : (base.map (fun kv => (kv.1, (over.lookup kv.1).getD kv.2))).lookup d = none := by
+      induction base with
+      | nil => rfl
+      | cons a r ih =>
+        obtain ⟨k, w⟩ := a
+        by_cases hk : d == k
+        · simp [List.lookup, hk] at hb
+        · simp only [List.lookup, hk] at hb
+          simp only [List.map_cons, List.lookup, hk]
+          exact ih hb
+    rw [h1]
+    have := lookup_filter_key over (fun k => !(base.any (fun mv => mv.1 == k))) d
+      (by simp [lookup_none_any base d hb])
+    simp only [Option.none_or]
+    rw [this, h]
+
 end OV.C07
